@@ -112,6 +112,21 @@ def numpy_engine():
     return Engine()
 
 
+def symvar_engine():
+    """the real NumPy engine, except that the variables it creates itself are symbolic arrays (used for first steps
+    of networks whose parameters are symbolic)"""
+    from sym_metanet.engines.numpy import Engine
+
+    class SymVarEngine(Engine):
+        _count = [0]
+
+        def var(self, name, n=1, *args, **kwargs):
+            self._count[0] += 1
+            return SymArray.of([S.var(f"own!{name}!{self._count[0]}[{i}]") for i in range(n)])
+
+    return SymVarEngine()
+
+
 def step_numpy(topo, P, X, flags=None, engine=None, order=None, copy_inputs=False, builder=None):
     """build + step with the real NumPy engine; returns (built, next-state dict).
     builder: optional callable(topo, P, first_engine) -> Built for non-standard construction histories."""
